@@ -150,7 +150,7 @@ class Scenario:
         import io
 
         with contextlib.redirect_stdout(io.StringIO()):  # (the option prints timing lines)
-            return ui.Model(dt=self.dt, state=mk(self.state), control=mk(self.control), calibration=mk(self.calibration), state_model=dict(items), **({"proactive_simplify": True} if proactive_simplify else {}))
+            return ui.Model(dt=self.dt, state=mk(self.state), control=mk(self.control), calibration=mk(self.calibration), state_model=dict(items), **({"proactive_simplify": True} if proactive_simplify else {}), **({"debug_print": True} if container == "list" else {}))  # (the list-declared twins also switch the optional printing on: it must only print)
 
     def point(self, seed=0):
         rng = random.Random(seed + 991)
